@@ -180,7 +180,7 @@ pub trait UNode {
 struct NSmh<F: num::Float, T: Hash, H: Hasher + Default>(SuperMinHash<F, T, H>);
 impl<F, T, H> UNode for NSmh<F, T, H>
 where
-    F: num::Float + rand_distr_uniform::SU + Debug + FBits,
+    F: num::Float + rand_distr_uniform::SU + Debug + FBits + Send + Sync,
     T: Elem,
     H: Hasher + Default,
 {
@@ -292,7 +292,7 @@ macro_rules! impl_dens {
     ($N:ident) => {
         impl<F, T, H> UNode for $N<F, T, H>
         where
-            F: num::Float + rand_distr_uniform::SU + Debug + FBits,
+            F: num::Float + rand_distr_uniform::SU + Debug + FBits + Send + Sync,
             T: Elem,
             H: Hasher + Default,
         {
@@ -337,7 +337,7 @@ macro_rules! impl_dens {
 impl_dens!(NOpt);
 impl_dens!(NRev);
 
-fn mk<T: Elem, H: Hasher + Default + 'static>(spec: &USpec) -> Box<dyn UNode> {
+fn mk<T: Elem, H: Hasher + Default + Send + Sync + 'static>(spec: &USpec) -> Box<dyn UNode> {
     let m = spec.m;
     let bh = BuildHasherDefault::<H>::default();
     match spec.kind {
@@ -417,4 +417,47 @@ pub fn gen_setp(rng: &mut crate::prng::Rng, is_u16: bool) -> SetP {
         *rng.pick(&[65534u64, 30, 1 << 20, (1u64 << 32) - 2, 1 << 40])
     };
     SetP::new(b, a, q)
+}
+
+/// Pairs of distinct items that tie exactly in an f32 densified sketcher of this configuration: both
+/// land in the same bin with bit-identical value when sketched alone by the real code. Found by probing
+/// single-item sketches (ids 0..30000); cached per configuration. Only for small m (the chance of a
+/// tie per pair is 1 / (m * 2^23)).
+pub fn f32_tie_pairs(spec: &USpec) -> Vec<(u64, u64)> {
+    use std::collections::BTreeMap;
+    use std::sync::Mutex;
+    static CACHE: Mutex<BTreeMap<String, Vec<(u64, u64)>>> = Mutex::new(BTreeMap::new());
+    if !spec.kind.is_f32_dens() || spec.m > 16 {
+        return vec![];
+    }
+    let key = format!("{:?}/{:?}/{:?}/{}", spec.kind, spec.elem, spec.hash, spec.m);
+    if let Some(v) = CACHE.lock().unwrap().get(&key) {
+        return v.clone();
+    }
+    let mut node = make_unode(spec);
+    let mut seen: BTreeMap<(usize, u64), u64> = BTreeMap::new();
+    let mut pairs = vec![];
+    for id in 0..30_000u64 {
+        node.restart();
+        node.deliver(id);
+        if let Some(st) = node.dens_state() {
+            if let Some(k) = st.init.iter().position(|b| *b) {
+                let hv = st.hashes[k];
+                match seen.get(&(k, st.fvals[k])) {
+                    Some(other) if node.hash_of(*other) != hv => {
+                        pairs.push((*other, id));
+                        if pairs.len() >= 8 {
+                            break;
+                        }
+                    }
+                    Some(_) => {}
+                    None => {
+                        seen.insert((k, st.fvals[k]), id);
+                    }
+                }
+            }
+        }
+    }
+    CACHE.lock().unwrap().insert(key, pairs.clone());
+    pairs
 }
